@@ -663,9 +663,19 @@ pub fn string_repeat(
     args: &[JsValue],
 ) -> Result<Guarded, JsError> {
     let s = interp.to_js_string(&this);
-    let count = args.first().map(|v| v.to_number() as usize).unwrap_or(0);
+    // ToIntegerOrInfinity(count): NaN -> 0, otherwise truncate
+    let count = args.first().map(|v| v.to_number()).unwrap_or(0.0);
+    let count = if count.is_nan() { 0.0 } else { count.trunc() };
+    if count < 0.0 || count.is_infinite() {
+        return Err(JsError::range_error("Invalid count value"));
+    }
+    // Refuse results that cannot be represented (same limit class as other engines)
+    const MAX_STRING_LENGTH: f64 = 536_870_888.0;
+    if count * (s.len() as f64) > MAX_STRING_LENGTH {
+        return Err(JsError::range_error("Invalid string length"));
+    }
     Ok(Guarded::unguarded(JsValue::String(JsString::from(
-        s.as_str().repeat(count),
+        s.as_str().repeat(count as usize),
     ))))
 }
 
@@ -851,8 +861,8 @@ pub fn string_pad_start(
     let s = interp.to_js_string(&this);
     let target_length = args.first().map(|v| v.to_number() as usize).unwrap_or(0);
     let pad_string = match args.get(1) {
+        None | Some(JsValue::Undefined) => interp.intern(" "),
         Some(v) => interp.to_js_string(v),
-        None => interp.intern(" "),
     };
 
     let current_len = s.as_str().chars().count();
@@ -880,8 +890,8 @@ pub fn string_pad_end(
     let s = interp.to_js_string(&this);
     let target_length = args.first().map(|v| v.to_number() as usize).unwrap_or(0);
     let pad_string = match args.get(1) {
+        None | Some(JsValue::Undefined) => interp.intern(" "),
         Some(v) => interp.to_js_string(v),
-        None => interp.intern(" "),
     };
 
     let current_len = s.as_str().chars().count();
